@@ -266,6 +266,11 @@ def sweep_plans(tier, verif_seed):
         p["n_jobs"] = max(2, p["n_jobs"])
         p["real_joblib"] = True
         yield p
+    # one fixed plan whose spikes all lie inside the margins (known finding: the call raises instead of saving empty files)
+    p0 = gen_plan(run_seed(verif_seed, PROP + "-novalid", 0), tier)
+    p0.update({"spikes": [[5, 1, 3], [10, 1, 4], [p0["ns"] - 10, 2, 7]], "prelude": None, "interrupted_first": None, "form": "bin",
+               "preprocess": "none", "n_jobs": 1})
+    yield p0
     nbase = {"quick": 1, "thorough": int(os.environ.get("VERIF_C13_SWEEPS", "8"))}[tier]
     for b in range(nbase):
         s = run_seed(verif_seed, PROP + "-hold", b)
@@ -336,7 +341,19 @@ def _run(plan, base):
     sigbase = f"n{plan['n_jobs']}"
     try:
         if not valid.any():
-            # no valid spike at all: nothing to extract, not a documented use
+            # no spike of the whole train lies farther than the window margins from both ends: every unit is due
+            # min(max_wf, 0) = 0 waveforms, i.e. empty files - not an exception
+            probe("no_valid_spike_at_all")
+            od = base / "out_ref"
+            od.mkdir(exist_ok=True)
+            res = _extract(plan, src, od, plan["chunk_ref"], 1, None, base / "scratch")
+            if res["err"]:
+                e, tb = res["err"]
+                raise Violation("C13.W3", f"no-valid-spike:raises:{type(e).__name__}", f"extract_wfs_cbin raised {type(e).__name__}: {e} although the call is legal: no spike lies inside the margins, so every unit should get 0 waveforms (spike samples {sp[:, 0].tolist()[:8]}, ns={ns})")
+            out0 = _load(od)
+            if len(out0["table"]) != 0 or out0["traces"].shape[0] != 0:
+                raise Violation("C13.W3", "no-valid-spike:rows", f"{len(out0['table'])} rows extracted although no spike is valid")
+            stats["outcomes"]["held"] = 1
             return {"violation": None, "stats": stats, "digest": digest(["novalid"]), "plan": dict(plan), "sample": None}
         outs = {}
         if plan.get("interrupted_first") and plan["form"] == "cbin":
